@@ -10,7 +10,7 @@ UNIT = Unit(
     items=[Lemma("pins_present", "()", ensures=[("pinned-api-glue-unchanged", "true")], body="{}", no_canary=True)],
 )
 UNIT.pinned = [("src/multi.rs", "MultiProgress", n) for n in
-               ["new", "with_draw_target", "set_draw_target", "set_move_cursor", "add", "insert", "insert_from_back",
+               ["new", "with_draw_target", "add", "insert", "insert_from_back",
                 "insert_before", "insert_after", "remove", "internalize", "suspend"]] + [
     ("src/multi.rs", "MultiState", "new"), ("src/draw_target.rs", "ProgressDrawTarget", "new_remote"),
     ("src/progress_bar.rs", "ProgressBar", "index"),
